@@ -1,10 +1,8 @@
 import ast
 import keyword
 import re
-from collections.abc import MutableMapping
-from typing import Union
-
-import numpy
+from collections.abc import Mapping, MutableMapping
+from typing import Optional, Union
 
 from .iterators import peekable_iter
 
@@ -65,7 +63,9 @@ def sanitize_variable_names(
                 sanitized_expr.append(f"`{variable_name}")
             else:
                 next(expr_parts)
-                new_name = sanitize_variable_name(variable_name, env, template=template)
+                new_name = sanitize_variable_name(
+                    variable_name, env, template=template, aliases=aliases
+                )
                 aliases[new_name] = variable_name
                 sanitized_expr.append(f" {new_name} ")
         else:
@@ -75,7 +75,11 @@ def sanitize_variable_names(
 
 
 def sanitize_variable_name(
-    name: str, env: MutableMapping, *, template: str = "{}"
+    name: str,
+    env: MutableMapping,
+    *,
+    template: str = "{}",
+    aliases: Optional[Mapping] = None,
 ) -> str:
     """
     Generate a valid Python variable name for variable identifier `name`.
@@ -87,8 +91,10 @@ def sanitize_variable_name(
             created for the same value for the new variable name.
         template: A template to use for sanitized names, which is mainly useful
             if you need to undo the sanitization by string replacement.
+        aliases: The sanitized names already handed out (mapped back to the
+            original names), so that different names never share an alias.
     """
-    if name.isidentifier() or keyword.iskeyword(name):
+    if template == "{}" and (name.isidentifier() or keyword.iskeyword(name)):
         return name
 
     # Compute recognisable basename
@@ -96,14 +102,17 @@ def sanitize_variable_name(
     if not base_name or base_name[0].isdigit():
         base_name = "_" + base_name
 
-    # Verify new name is not in env already, and if not add a random suffix.
+    # Verify new name is not already in use for something else (in `env`, or
+    # as the alias of a different name), and if it is add a numeric suffix
+    # (deterministic, so that the sanitized code is reproducible).
+    aliases = {} if aliases is None else aliases
     new_name = template.format(base_name)
-    while new_name in env:
-        new_name = template.format(
-            base_name
-            + "_"
-            + "".join(numpy.random.choice(list("abcefghiklmnopqrstuvwxyz"), 10))
-        )
+    suffix = 0
+    while aliases.get(new_name, name) != name or (
+        new_name in env and new_name not in aliases
+    ):
+        suffix += 1
+        new_name = template.format(f"{base_name}_{suffix}")
 
     # Reuse the value for `name` for `new_name` also.
     if name in env:
